@@ -82,15 +82,38 @@ func (d *decryptingIndexer) Index(dec keyvaluestorage.Decryptor, kvs ...innersto
 type kvStore struct {
 	scratch *dbutil.Scratch
 	db      anystore.DB
+	hs      headstorage.HeadStorage
 	acl     list.AclList
 	st      keyvaluestorage.Storage
 	client  *captureClient
 	idx     *decryptingIndexer
+	w       *kvWorld
+	acc     int
+}
+
+const kvStorageId = "kvstore.verif"
+
+// reset empties the store and builds the storage object again on the same (open) database:
+// opening and closing a database costs more than everything else a case does.
+func (s *kvStore) reset() error {
+	ctx := context.Background()
+	coll, err := s.db.Collection(ctx, kvStorageId)
+	if err != nil {
+		return err
+	}
+	if _, err := coll.Find(nil).Delete(ctx); err != nil {
+		return err
+	}
+	s.client.got, s.client.n, s.idx.errs = nil, 0, 0
+	if s.st, err = keyvaluestorage.New(ctx, kvStorageId, s.db, s.hs, s.w.keys[s.acc], s.client, s.acl, s.idx); err != nil {
+		return err
+	}
+	return s.st.Prepare()
 }
 
 func openKvStore(w *kvWorld, acc int) (*kvStore, error) {
 	ctx := context.Background()
-	s := &kvStore{client: &captureClient{}, idx: &decryptingIndexer{}}
+	s := &kvStore{client: &captureClient{}, idx: &decryptingIndexer{}, w: w, acc: acc}
 	var err error
 	if s.scratch, err = dbutil.New("c11-kv-"); err != nil {
 		return nil, err
@@ -103,10 +126,11 @@ func openKvStore(w *kvWorld, acc int) (*kvStore, error) {
 	if err != nil {
 		return fail(err)
 	}
+	s.hs = hs
 	if s.acl, err = aclgen.NewList(w.keys[acc], w.records, recordverifier.NewValidateFull()); err != nil {
 		return fail(err)
 	}
-	if s.st, err = keyvaluestorage.New(ctx, "kvstore.verif", s.db, hs, w.keys[acc], s.client, s.acl, s.idx); err != nil {
+	if s.st, err = keyvaluestorage.New(ctx, kvStorageId, s.db, hs, w.keys[acc], s.client, s.acl, s.idx); err != nil {
 		return fail(err)
 	}
 	if err = s.st.Prepare(); err != nil {
@@ -194,6 +218,7 @@ func newKvFixture() (*kvFixture, error) {
 }
 
 func (f *kvFixture) Seeds() []seed { return f.w.seeds }
+func (f *kvFixture) Reset() error  { return f.v.reset() }
 func (f *kvFixture) Close()        { f.v.close() }
 func (f *kvFixture) Semantic() []string {
 	return []string{"short-cipher", "acl-head", "key-type", "timestamp", "key-peer-id", "empty-inner", "many"}
